@@ -429,6 +429,14 @@ class Caller(object):
                            kind="argument-mutated", call="bitfield")
         return "bitfield", canon(log)
 
+    @staticmethod
+    def structs_canon(structs):
+        return canon(sorted(
+            (k.decode(), v.size, v.base, sorted(
+                (fk.decode(), canon(tuple(fv)))
+                for fk, fv in v.fields.items()))
+            for k, v in structs.items()))
+
     def call_controller(self, t):
         """Create controllers one after another, use contexts on the first,
         report what a freshly created one looks like and where its command
@@ -452,6 +460,15 @@ class Caller(object):
             fb = bmpmod.BMPController("spinn", n_tries=2, timeout=0.1)
             out.append(("fresh-mc", canon(fresh.get_context_arguments())))
             out.append(("fresh-bmp", canon(fb.get_context_arguments())))
+            out.append(("fresh-structs", self.structs_canon(fresh.structs)))
+            # a boot with options (the datagrams go nowhere): what it was
+            # given must not show in anything created later
+            bootmod = rig_module("rig.machine_control.boot")
+            opts = [bootmod.spin3_boot_options, {"hw_ver": 2, "led0": 7},
+                    {"p2p_addr": 3}, {}][t.draw(4)]
+            st = bootmod.boot("spinn", boot_delay=0.0, post_boot_delay=0.0,
+                              **dict(opts))
+            out.append(("boot-structs", self.structs_canon(st)))
             first = mcmod.MachineController("spinn", n_tries=2, timeout=0.1)
             first.update_current_context(x=1, y=t.draw(2),
                                          app_id=30 + t.draw(5))
@@ -476,11 +493,7 @@ class Caller(object):
                                        d.arg(0)) for d in sent]))
             except TypeError as e:
                 out.append(("alloc", "TypeError"))
-            out.append(("structs", sorted(
-                (k.decode(), v.size, v.base, sorted(
-                    (fk.decode(), canon(tuple(fv)))
-                    for fk, fv in v.fields.items()))
-                for k, v in second.structs.items())))
+            out.append(("structs", self.structs_canon(second.structs)))
         finally:
             seams.restore()
         return "controller", canon(out)
